@@ -428,16 +428,16 @@ func otlMutate(r *Rng, b []byte) ([]byte, string) {
 
 func areaOtl(c *Ctx) {
 	r := c.Rng
-	nCov := c.N * 20 / 100
-	nCd := c.N * 20 / 100
-	nGsub := c.N * 15 / 100
-	nGpos := c.N * 12 / 100
-	nGposMark := c.N * 10 / 100
-	nCtx := c.N * 10 / 100
-	nFL := c.N * 5 / 100
-	nGdef := c.N * 6 / 100
-	nSL := c.N * 6 / 100
-	nGtab := c.N * 6 / 100
+	nCov := c.N * 14 / 100
+	nCd := c.N * 14 / 100
+	nGsub := c.N * 12 / 100
+	nGpos := c.N * 10 / 100
+	nGposMark := c.N * 8 / 100
+	nCtx := c.N * 8 / 100
+	nFL := c.N * 4 / 100
+	nGdef := c.N * 5 / 100
+	nSL := c.N * 5 / 100
+	nGtab := c.N * 5 / 100
 	nLL := c.N - nCov - nCd - nGsub - nGpos - nGposMark - nCtx - nFL - nGdef - nSL - nGtab
 
 	// ---- coverage
